@@ -55,13 +55,55 @@ Definition op_point (o : op) : N :=
 Definition lin_before (x y : op) : Prop :=
   op_point x < op_point y \/ (op_point x = op_point y /\ op_inv x < op_inv y).
 
-(* ---------- correspondence: step traces of waitForLinearizableRead ---------- *)
+(* ---------- strongReadTerm ---------- *)
 
-Record case := {
+(* what happens to the strong reads a node sends through its log (Query at level strong or
+   upgraded, Request carrying a read): handed to raft.Apply, come back applied, or fail.
+   Store.Query/Request store the read term in strongReadTerm only after the apply future has
+   answered without error, i.e. after the FSM has applied the read's own entry. *)
+Inductive srt_event :=
+  | SQueued (read_term : N)
+  | SApplied (read_term : N)
+  | SFailed (read_term : N).
+
+Definition srt_step (srt : N) (e : srt_event) : N :=
+  match e with SApplied t => t | SQueued _ | SFailed _ => srt end.
+
+Definition srt_run (srt : N) (es : list srt_event) : N := fold_left srt_step es srt.
+
+(* ---------- correspondence ---------- *)
+
+(* a step trace of one waitForLinearizableRead call *)
+Record trace := {
   c_obs : lin_obs;           (* what the call read, observed around it on the live node *)
   c_result : lin_result;     (* what it returned *)
   c_verified : bool          (* a VerifyLeader was counted during the call *)
 }.
+
+(* one linearizable read (Query/Request) of a group started while a strong read of the term is
+   still in flight: what it read when it began, except strongReadTerm - that is the model's -
+   and whether it was turned into a strong read *)
+Record mid_read := {
+  m_obs : lin_obs;           (* lo_srt is ignored *)
+  m_upgraded : bool
+}.
+
+(* first reads of a term: strongReadTerm before, the strong-read events up to the moment
+   strongReadTerm was sampled (reads queued, none applied yet), the sampled value, the reads
+   started in that window, and the value after all of them have come back *)
+Record first_reads := {
+  f_term : N;
+  f_srt0 : N;
+  f_events : list srt_event;
+  f_sampled : N;
+  f_reads : list mid_read;
+  f_done : list srt_event;   (* what happened afterwards: the queued reads applied *)
+  f_srt_after : N
+}.
+
+Inductive case :=
+  | CTrace (t : trace)
+  | CFirst (f : first_reads).
 
 Definition lin_result_eqb (a b : lin_result) : bool :=
   match a, b with
@@ -70,6 +112,25 @@ Definition lin_result_eqb (a b : lin_result) : bool :=
   | _, _ => false
   end.
 
+Definition with_srt (o : lin_obs) (srt : N) : lin_obs :=
+  {| lo_term := lo_term o; lo_srt := srt; lo_leader := lo_leader o; lo_ready := lo_ready o;
+     lo_commit := lo_commit o; lo_verify := lo_verify o; lo_term_after := lo_term_after o;
+     lo_fsm_idx := lo_fsm_idx o; lo_kinds := lo_kinds o; lo_reached := lo_reached o |}.
+
+(* is the read turned into a strong read, strongReadTerm being what the model says it is *)
+Definition predicts_upgrade (srt : N) (r : mid_read) : bool :=
+  lin_result_eqb (wait_lin (with_srt (m_obs r) srt)) LinStrongNeeded.
+
+Definition check_first (f : first_reads) : bool :=
+  let srt_mid := srt_run (f_srt0 f) (f_events f) in
+  (srt_mid =? f_sampled f)
+  && forallb (fun r => Bool.eqb (predicts_upgrade srt_mid r) (m_upgraded r)) (f_reads f)
+  && (srt_run srt_mid (f_done f) =? f_srt_after f).
+
 Definition check_case (c : case) : bool :=
-  lin_result_eqb (wait_lin (c_obs c)) (c_result c)
-  && Bool.eqb (lin_calls_verify (c_obs c)) (c_verified c).
+  match c with
+  | CTrace t =>
+      lin_result_eqb (wait_lin (c_obs t)) (c_result t)
+      && Bool.eqb (lin_calls_verify (c_obs t)) (c_verified t)
+  | CFirst f => check_first f
+  end.
